@@ -3,7 +3,10 @@
 # harness crates) from files on disk only; everything goes under /verif/build.
 set -e
 cd "$(dirname "$0")"
+ROOT="$(pwd)"
 export CARGO_NET_OFFLINE=true
 mkdir -p build evidence
 if [ -x tools/build_replay.sh ]; then tools/build_replay.sh || echo "setup: replay program not built (witness search disabled)" >&2; fi
+# warm the build of the Python extension that the C13 stand-in drives (rebuilt incrementally from /repo's tree when needed)
+(cd /repo && CARGO_TARGET_DIR="$ROOT/build/py-target" cargo build -p pip --offline --features pyo3/extension-module >/dev/null 2>&1) || echo "setup: python extension not pre-built (built on demand)" >&2
 echo "setup done"
